@@ -18,6 +18,7 @@ import (
 	"os"
 	"os/exec"
 	"path/filepath"
+	"regexp"
 	"sort"
 	"strings"
 	"time"
@@ -30,79 +31,10 @@ type fieldVar struct {
 	Path string     // Go selector path, e.g. "c.baseFlowController.bytesSent"; "#len(c.x)" etc. for slices
 	Term string     // SMT term (entry state)
 	Ty   types.Type // Go type of the location
-	Kind string     // scalar | ptr | iface-tag | iface-ref | slice-len
-}
-
-// entryFieldVars enumerates scalar locations reachable from the parameters whose heaps are used by the VCs.
-func (c *Ctx) entryFieldVars() []fieldVar {
-	var out []fieldVar
-	if c.fn == nil {
-		return nil
-	}
-	seen := map[string]bool{}
-	var walkStruct func(path, ref string, t types.Type, depth int)
-	walkStruct = func(path, ref string, t types.Type, depth int) {
-		st := structOf(t)
-		if st == nil || depth > 3 || seen[path] {
-			return
-		}
-		seen[path] = true
-		for i := 0; i < st.NumFields(); i++ {
-			f := st.Field(i)
-			fp := path + "." + f.Name()
-			ft := f.Type()
-			if structOf(ft) != nil {
-				if _, isNamedPtr := ft.Underlying().(*types.Pointer); !isNamedPtr {
-					walkStruct(fp, fmt.Sprintf("(mksub %s %d)", ref, i), ft, depth)
-					continue
-				}
-			}
-			used := func(cp string) bool { return c.declSet["heap:"+fieldHeapName(typeName(t), f.Name(), cp)] }
-			rd := func(cp string) string {
-				return fmt.Sprintf("(select %s %s)", q(fieldHeapName(typeName(t), f.Name(), cp)+"@0"), ref)
-			}
-			switch u := ft.Underlying().(type) {
-			case *types.Basic:
-				if used("") {
-					out = append(out, fieldVar{fp, rd(""), ft, "scalar"})
-				}
-			case *types.Pointer:
-				if used("") {
-					out = append(out, fieldVar{fp, rd(""), ft, "ptr"})
-					if structOf(u.Elem()) != nil {
-						walkStruct(fp, rd(""), u.Elem(), depth+1)
-					}
-				}
-			case *types.Interface:
-				if used("#tag") {
-					out = append(out, fieldVar{fp, rd("#tag"), ft, "iface-tag"})
-					// devirtualised interface: expose the concrete object
-					if _, ct := c.eng.devirt(ft, firstMethod(u)); ct != nil {
-						if pt, ok := ct.(*types.Pointer); ok {
-							out = append(out, fieldVar{fp + "#ref", rd("#pref"), ct, "iface-ref"})
-							walkStruct(fp+".("+types.TypeString(ct, relQual(c.fn))+")", rd("#pref"), pt.Elem(), depth+1)
-						}
-					}
-				}
-			case *types.Slice:
-				if used("#len") {
-					out = append(out, fieldVar{fp, rd("#len"), ft, "slice-len"})
-				}
-			}
-		}
-	}
-	for _, p := range c.fn.Params {
-		v, ok := c.entryEnvVars[p.Name()]
-		if !ok {
-			continue
-		}
-		if sc, ok := v.(Scalar); ok && sc.S == SRef {
-			if pt, ok := sc.Ty.Underlying().(*types.Pointer); ok && structOf(pt.Elem()) != nil {
-				walkStruct(p.Name(), sc.T, pt.Elem(), 0)
-			}
-		}
-	}
-	return out
+	Kind string     // scalar | ptr | iface-tag | slice-len | string | strlit | map | chan
+	// further terms: slice-len: backing array, offset, capacity; string: length; iface-tag: object ref, integer payload
+	Extra []string
+	Lit   string // strlit: the literal's text
 }
 
 func firstMethod(it *types.Interface) string {
@@ -364,9 +296,51 @@ func verifIsErr(e error, code uint64) bool {
 }
 `
 
+// replayOnRealCode tries the failing instances (paths) of the obligation one after the other until the real code
+// exhibits the violation.
 func replayOnRealCode(eng *Engine, rf *ReplayFile, st *oblStatus, fr *FuncResult) string {
-	o := st.FailInst
-	if o == nil || st.FailRes == nil || st.FailRes.Model == nil {
+	insts := append([]*Obligation{st.FailInst}, st.MoreInst...)
+	ress := append([]*SolveResult{st.FailRes}, st.MoreRes...)
+	status := "not-attempted"
+	attempts := 0
+	for i := range insts {
+		if insts[i] == nil || ress[i] == nil || ress[i].Model == nil {
+			continue
+		}
+		attempts++
+		r := replayInstance(eng, rf, insts[i], ress[i].Model, ress[i].Candidate, fr)
+		if r == "confirmed" {
+			rf.Replay["attempts"] = fmt.Sprint(attempts)
+			rf.Replay["path"] = fmt.Sprint(insts[i].PathID)
+			if i > 0 {
+				// the inputs recorded in the file are those of the instance that reproduced
+				rf.Inputs = map[string]string{}
+				for _, v := range insts[i].Vars {
+					if val, ok := ress[i].Model[v.Term]; ok {
+						rf.Inputs[v.Name] = val
+					}
+				}
+				for _, v := range insts[i].Fields {
+					if val, ok := ress[i].Model[v.Term]; ok && v.Term != "" {
+						rf.Inputs[v.Path] = val
+					}
+				}
+			}
+			return r
+		}
+		if status == "not-attempted" || r == "not-reproduced" {
+			status = r
+		}
+		if r == "not-attempted" {
+			break // the clause or the function is outside what the replay can execute: other paths will not help
+		}
+	}
+	rf.Replay["attempts"] = fmt.Sprint(attempts)
+	return status
+}
+
+func replayInstance(eng *Engine, rf *ReplayFile, o *Obligation, model map[string]string, candidate bool, fr *FuncResult) string {
+	if o == nil || model == nil {
 		return "not-attempted"
 	}
 	kind := o.Kind
@@ -379,138 +353,22 @@ func replayOnRealCode(eng *Engine, rf *ReplayFile, st *oblStatus, fr *FuncResult
 	if fn == nil {
 		return "not-attempted"
 	}
-	model := st.FailRes.Model
-	val := func(term string) (string, bool) { v, ok := model[term]; return v, ok }
+	if fn.Parent() != nil {
+		rf.Replay["reason"] = "closure body: only callable through its enclosing function, whose entry state the model does not describe"
+		return "not-attempted"
+	}
 	qual := relQual(fn)
+	_ = qual
 	var sb strings.Builder
-	sb.WriteString("package " + fn.Pkg.Pkg.Name() + "\n\nimport (\n\t\"testing\"\n\t\"fmt\"\n\t\"math/big\"\n\t\"reflect\"\n")
+	sb.WriteString("package " + fn.Pkg.Pkg.Name() + "\n\nimport (\n\t\"testing\"\n\t\"fmt\"\n\t\"math/big\"\n\t\"reflect\"\n\t\"strconv\"\n\t\"strings\"\n\t\"unsafe\"\n")
 	imports := map[string]bool{}
 	body := &strings.Builder{}
-	// parameters
-	var argNames []string
-	cannot := ""
-	byPrefix := map[string][]fieldVar{}
-	for _, fv := range o.Fields {
-		root := fv.Path
-		if i := strings.Index(root, "."); i >= 0 {
-			root = root[:i]
-		}
-		byPrefix[root] = append(byPrefix[root], fv)
-	}
-	for _, p := range fn.Params {
-		name := p.Name()
-		if name == "_" || name == "" {
-			name = fmt.Sprintf("arg%d", len(argNames))
-		}
-		argNames = append(argNames, name)
-		t := p.Type()
-		collectImports(t, fn.Pkg.Pkg, imports)
-		ts := types.TypeString(t, qual)
-		var paramTerm string
-		for _, mv := range o.Vars {
-			if mv.Name == p.Name() {
-				paramTerm = mv.Term
-			}
-		}
-		switch u := t.Underlying().(type) {
-		case *types.Basic:
-			mv, ok := val(paramTerm)
-			if !ok {
-				fmt.Fprintf(body, "\tvar %s %s\n", name, ts)
-				continue
-			}
-			if u.Info()&types.IsBoolean != 0 {
-				fmt.Fprintf(body, "\tvar %s %s = %s\n", name, ts, strings.TrimSpace(mv))
-			} else if n, ok := parseModelInt(mv); ok && u.Info()&types.IsInteger != 0 {
-				fmt.Fprintf(body, "\tvar %s %s = %s\n", name, ts, goIntLit(n, t))
-			} else {
-				fmt.Fprintf(body, "\tvar %s %s\n", name, ts)
-			}
-		case *types.Pointer:
-			if structOf(u.Elem()) == nil {
-				cannot = "pointer parameter to non-struct"
-				break
-			}
-			fmt.Fprintf(body, "\t%s := new(%s)\n", name, types.TypeString(u.Elem(), qual))
-			fvs := byPrefix[p.Name()]
-			sort.SliceStable(fvs, func(i, j int) bool { return strings.Count(fvs[i].Path, ".") < strings.Count(fvs[j].Path, ".") })
-			for _, fv := range fvs {
-				mv, ok := val(fv.Term)
-				if !ok {
-					continue
-				}
-				path := name + strings.TrimPrefix(fv.Path, p.Name())
-				switch fv.Kind {
-				case "scalar":
-					b := fv.Ty.Underlying().(*types.Basic)
-					if b.Info()&types.IsBoolean != 0 {
-						fmt.Fprintf(body, "\t%s = %s\n", path, strings.TrimSpace(mv))
-					} else if n, ok := parseModelInt(mv); ok && b.Info()&types.IsInteger != 0 {
-						collectImports(fv.Ty, fn.Pkg.Pkg, imports)
-						fmt.Fprintf(body, "\t%s = %s(%s)\n", path, types.TypeString(fv.Ty, qual), goIntLit(n, fv.Ty))
-					}
-				case "ptr":
-					if !isNilRefModel(mv) {
-						pt := fv.Ty.Underlying().(*types.Pointer)
-						if structOf(pt.Elem()) != nil && exportedOrLocal(pt.Elem(), fn.Pkg.Pkg) {
-							collectImports(pt.Elem(), fn.Pkg.Pkg, imports)
-							fmt.Fprintf(body, "\t%s = new(%s)\n", path, types.TypeString(pt.Elem(), qual))
-						}
-					}
-				case "iface-ref":
-					if !isNilRefModel(mv) {
-						pt := fv.Ty.(*types.Pointer)
-						fmt.Fprintf(body, "\t%s = new(%s)\n", strings.TrimSuffix(path, "#ref"), types.TypeString(pt.Elem(), qual))
-					}
-				case "slice-len":
-					if n, ok := parseModelInt(mv); ok && n.IsInt64() && n.Int64() >= 0 && n.Int64() <= 1<<16 {
-						collectImports(fv.Ty, fn.Pkg.Pkg, imports)
-						fmt.Fprintf(body, "\t%s = make(%s, %d)\n", path, types.TypeString(fv.Ty, qual), n.Int64())
-					} else if ok {
-						cannot = "model asks for a huge slice"
-					}
-				}
-			}
-		case *types.Slice:
-			var lenTerm string
-			for _, mv := range o.Vars {
-				if mv.Name == p.Name()+"#len" {
-					lenTerm = mv.Term
-				}
-			}
-			n := int64(0)
-			if mv, ok := val(lenTerm); ok {
-				if bn, ok := parseModelInt(mv); ok {
-					if !bn.IsInt64() || bn.Int64() > 1<<16 {
-						cannot = "model asks for a huge slice"
-						break
-					}
-					n = bn.Int64()
-				}
-			}
-			fmt.Fprintf(body, "\t%s := make(%s, %d)\n", name, ts, n)
-			// element values for byte slices
-			if isByteSlice(t) {
-				for i := int64(0); i < n && i < 64; i++ {
-					for _, mv := range o.Vars {
-						if mv.Name == fmt.Sprintf("%s[%d]", p.Name(), i) {
-							if v, ok := val(mv.Term); ok {
-								if bn, ok := parseModelInt(v); ok {
-									fmt.Fprintf(body, "\t%s[%d] = %d\n", name, i, bn.Int64()&0xff)
-								}
-							}
-						}
-					}
-				}
-			}
-		default:
-			fmt.Fprintf(body, "\tvar %s %s\n", name, ts)
-		}
-	}
+	build, argNames, cannot := buildReplayInputs(eng, fn, o, model, imports)
 	if cannot != "" {
 		rf.Replay["reason"] = cannot
 		return "not-attempted"
 	}
+	body.WriteString(build)
 	// clause
 	var check string
 	g := &dynCompiler{eng: eng, pkg: fn.Pkg.Pkg, pc: eng.db.Pkgs[pkgPath], subst: map[string]string{}, dynSub: map[string]bool{}, lets: fr.Contract.Lets}
@@ -554,6 +412,31 @@ func replayOnRealCode(eng *Engine, rf *ReplayFile, st *oblStatus, fr *FuncResult
 			return "not-attempted"
 		}
 	}
+	// the constructed input must satisfy the function's precondition (objects the model describes only in part, and
+	// candidate models in particular, may not); a permitted panic (panics when) is not a violation either
+	for i, rq := range fr.Contract.Requires {
+		pg := &dynCompiler{eng: eng, pkg: fn.Pkg.Pkg, pc: eng.db.Pkgs[pkgPath], subst: g.subst, dynSub: g.dynSub, lets: fr.Contract.Lets}
+		e := pg.expr(rq.Expr)
+		if pg.failed != "" || len(pg.olds) > 0 {
+			if candidate {
+				rf.Replay["reason"] = "candidate model, and precondition #" + fmt.Sprint(i) + " cannot be evaluated on the constructed input (" + pg.failed + ")"
+				return "not-attempted"
+			}
+			continue
+		}
+		fmt.Fprintf(body, "\tif !verifHolds(func() any { return %s }) {\n\t\tt.Fatalf(\"VERIF-REPLAY-PRECONDITION: requires #%d does not hold on the constructed input\")\n\t}\n", e, i)
+	}
+	if strings.HasPrefix(kind, "safe:") {
+		for i, pw := range fr.Contract.PanicsWhen {
+			pg := &dynCompiler{eng: eng, pkg: fn.Pkg.Pkg, pc: eng.db.Pkgs[pkgPath], subst: g.subst, dynSub: g.dynSub, lets: fr.Contract.Lets}
+			e := pg.expr(pw.Expr)
+			if pg.failed != "" || len(pg.olds) > 0 {
+				rf.Replay["reason"] = "the function may panic by contract and that condition cannot be evaluated (" + pg.failed + ")"
+				return "not-attempted"
+			}
+			fmt.Fprintf(body, "\tif verifHolds(func() any { return %s }) {\n\t\tt.Fatalf(\"VERIF-REPLAY-PRECONDITION: panics-when #%d holds: a panic is the contracted behaviour\")\n\t}\n", e, i)
+		}
+	}
 	for i, oe := range g.olds {
 		fmt.Fprintf(body, "\told%d := %s; _ = old%d\n", i, oe, i)
 	}
@@ -586,16 +469,32 @@ func replayOnRealCode(eng *Engine, rf *ReplayFile, st *oblStatus, fr *FuncResult
 		}
 		fmt.Fprintf(body, "\tif !(%s) {\n\t\tt.Fatalf(\"VERIF-REPLAY-CONFIRMED: clause violated\")\n\t}\n", check)
 	}
+	// packages the compiled clause names (conversions, constants, type assertions)
+	for _, ip := range fn.Pkg.Pkg.Imports() {
+		switch ip.Path() {
+		case "testing", "fmt", "math/big", "reflect", "strconv", "strings", "unsafe", "errors":
+			continue
+		}
+		if m, _ := regexp.MatchString(`(^|[^A-Za-z0-9_.])`+regexp.QuoteMeta(ip.Name())+`\.[A-Za-z_]`, body.String()+" "+check+" "+strings.Join(g.olds, " ")); m {
+			imports[ip.Path()] = true
+		}
+	}
 	var imps []string
 	for im := range imports {
 		imps = append(imps, im)
 	}
 	sort.Strings(imps)
 	for _, im := range imps {
+		switch im {
+		case "testing", "fmt", "math/big", "reflect", "strconv", "strings", "unsafe":
+			continue
+		}
 		sb.WriteString("\t\"" + im + "\"\n")
 	}
 	sb.WriteString(")\n")
 	sb.WriteString(dynReplayHelpers)
+	sb.WriteString(builderHelpers)
+	sb.WriteString("var _ = strconv.Itoa\nvar _ = strings.Join\nvar _ unsafe.Pointer\n")
 	if strings.Contains(replayHelpers, "verifErrCode") && !imports[eng.modPath+"/internal/qerr"] {
 		// helper needs qerr + errors: emit separately below
 	}
@@ -699,6 +598,10 @@ func runReplayTest(eng *Engine, rf *ReplayFile, pkgPath, pkgName, src string) st
 		return "not-reproduced"
 	}
 	rf.Replay["go_test_output"] = truncate(string(out), 4000)
+	if strings.Contains(string(out), "VERIF-REPLAY-PRECONDITION") {
+		rf.Replay["reason"] = "the input constructed from the model does not satisfy the precondition"
+		return "not-reproduced"
+	}
 	if strings.Contains(string(out), "VERIF-REPLAY-CONFIRMED") {
 		return "confirmed"
 	}
@@ -709,3 +612,646 @@ func runReplayTest(eng *Engine, rf *ReplayFile, pkgPath, pkgName, src string) st
 }
 
 var _ = token.NoPos
+
+// buildReplayInputs emits Go statements that construct the receiver and arguments from the model.
+func buildReplayInputs(eng *Engine, fn *ssa.Function, o *Obligation, model map[string]string, imports map[string]bool) (string, []string, string) {
+	qual := relQual(fn)
+	body := &strings.Builder{}
+	val := func(term string) (string, bool) {
+		if term == "" {
+			return "", false
+		}
+		v, ok := model[term]
+		if !ok || strings.Contains(v, "error") {
+			return "", false
+		}
+		return strings.Join(strings.Fields(v), " "), true
+	}
+	var argNames []string
+	rootVar := map[string]string{}
+	for _, p := range fn.Params {
+		name := p.Name()
+		if name == "_" || name == "" {
+			name = fmt.Sprintf("arg%d", len(argNames))
+		}
+		argNames = append(argNames, name)
+		rootVar[p.Name()] = name
+		if hasTypeParam(p.Type()) {
+			return "", nil, "generic function (type parameters are not instantiated for replay)"
+		}
+		collectImports(p.Type(), fn.Pkg.Pkg, imports)
+		fmt.Fprintf(body, "\tvar %s %s\n", name, types.TypeString(p.Type(), qual))
+	}
+	fmt.Fprintf(body, "\tvb := newVerifBuilder()\n")
+	// interface-typed locations the verifier treats as effect-free (loggers) get a real default instead of nil
+	for _, d := range replayDefaults {
+		pp := eng.modPath + "/" + d.pkg
+		if eng.typesPkg(pp) == nil {
+			continue
+		}
+		direct := fn.Pkg.Pkg.Path() == pp
+		for _, ip := range fn.Pkg.Pkg.Imports() {
+			if ip.Path() == pp {
+				direct = true
+			}
+		}
+		if !direct {
+			continue // importing it from the test could create an import cycle
+		}
+		qn := d.pkgName + "."
+		if fn.Pkg.Pkg.Path() == pp {
+			qn = ""
+		} else {
+			imports[pp] = true
+		}
+		fmt.Fprintf(body, "\tvb.Default(reflect.TypeOf((*%s%s)(nil)).Elem(), %s%s)\n", qn, d.iface, qn, d.value)
+	}
+	// string literals: model value -> text
+	lits := map[string]string{}
+	for _, fv := range o.Fields {
+		if fv.Kind == "strlit" {
+			if mv, ok := val(fv.Term); ok {
+				lits[mv] = fv.Lit
+			}
+		}
+	}
+	strIDs := map[string]int{}
+	chosen := map[string]string{} // interface location path -> chosen type id
+	splitRoot := func(path string) (string, string) {
+		for i := 0; i < len(path); i++ {
+			if path[i] == '.' || path[i] == '[' {
+				return path[:i], path[i:]
+			}
+		}
+		return path, ""
+	}
+	ifaceOK := func(path string) bool {
+		// every ".(id)" step must agree with the type chosen for the interface at that prefix
+		for i := 0; i+1 < len(path); i++ {
+			if path[i] == '.' && path[i+1] == '(' {
+				j := strings.IndexByte(path[i:], ')')
+				if j < 0 {
+					return false
+				}
+				if chosen[path[:i]] != path[i+2:i+j] {
+					return false
+				}
+			}
+		}
+		return true
+	}
+	n := 0
+	for _, fv := range o.Fields {
+		if fv.Kind == "strlit" || fv.Kind == "map" || fv.Kind == "chan" {
+			continue
+		}
+		root, rest := splitRoot(fv.Path)
+		rv, ok := rootVar[root]
+		if !ok || !ifaceOK(fv.Path) {
+			continue
+		}
+		mv, ok := val(fv.Term)
+		if !ok {
+			continue
+		}
+		n++
+		switch fv.Kind {
+		case "scalar":
+			if mv == "true" || mv == "false" {
+				fmt.Fprintf(body, "\tvb.Bool(&%s, %q, %s)\n", rv, rest, mv)
+			} else if bn, ok := parseModelInt(mv); ok {
+				fmt.Fprintf(body, "\tvb.Int(&%s, %q, %q)\n", rv, rest, bn.String())
+			}
+		case "ptr":
+			if !isNilRefModel(mv) {
+				fmt.Fprintf(body, "\tvb.New(&%s, %q, %q)\n", rv, rest, mv)
+			}
+		case "slice-len":
+			ln, ok := parseModelInt(mv)
+			if !ok {
+				continue
+			}
+			if ii, ok := isIntType(types.Typ[types.Int]); ok && ln.Sign() >= 0 && ln.Cmp(pow2(ii.bits-1)) >= 0 {
+				ln = new(big.Int).Sub(ln, pow2(ii.bits)) // bit-vector model of a negative length: an unconstrained location
+			}
+			if !ln.IsInt64() || ln.Int64() > 1<<20 || ln.Sign() < 0 {
+				fmt.Fprintf(body, "\t// %s: length %s in the model is not constructible (location unconstrained or too large); left nil\n", fv.Path, ln.String())
+				continue
+			}
+			arr, _ := val(fv.Extra[0])
+			off, cp := int64(0), ln.Int64()
+			if v, ok := val(fv.Extra[1]); ok {
+				if bn, ok := parseModelInt(v); ok && bn.IsInt64() && bn.Int64() >= 0 && bn.Int64() <= 1<<16 {
+					off = bn.Int64()
+				}
+			}
+			if v, ok := val(fv.Extra[2]); ok {
+				if bn, ok := parseModelInt(v); ok && bn.Sign() >= 0 {
+					if bn.IsInt64() && bn.Int64() <= ln.Int64()+1<<16 {
+						cp = bn.Int64()
+					} else {
+						cp = ln.Int64() + 1<<16
+					}
+				}
+			}
+			if cp < ln.Int64() {
+				cp = ln.Int64()
+			}
+			if (arr == "" || isNilRefModel(arr)) && ln.Sign() == 0 {
+				continue // nil slice
+			}
+			fmt.Fprintf(body, "\tvb.Slice(&%s, %q, %q, %d, %d, %d)\n", rv, rest, arr, off, ln.Int64(), cp)
+		case "string":
+			if lit, ok := lits[mv]; ok {
+				fmt.Fprintf(body, "\tvb.Str(&%s, %q, %q)\n", rv, rest, lit)
+				continue
+			}
+			ln := int64(0)
+			if v, ok := val(fv.Extra[0]); ok {
+				if bn, ok := parseModelInt(v); ok && bn.IsInt64() && bn.Int64() >= 0 && bn.Int64() <= 1<<16 {
+					ln = bn.Int64()
+				}
+			}
+			id, ok := strIDs[mv]
+			if !ok {
+				id = len(strIDs)
+				strIDs[mv] = id
+			}
+			// distinct model strings get distinct contents of the modelled length
+			s := strings.Repeat(string(rune('a'+id%26)), int(ln))
+			if ln >= 2 {
+				s = fmt.Sprintf("%d", id%10) + s[1:]
+			}
+			fmt.Fprintf(body, "\tvb.Str(&%s, %q, %q)\n", rv, rest, s)
+		case "iface-tag":
+			tag, ok := parseModelInt(mv)
+			if !ok || tag.Sign() <= 0 || !tag.IsInt64() {
+				continue
+			}
+			ct := eng.typeByID(int(tag.Int64()))
+			if ct == nil {
+				continue
+			}
+			if pt, ok := ct.Underlying().(*types.Pointer); ok && structOf(pt.Elem()) != nil && exportedOrLocal(pt.Elem(), fn.Pkg.Pkg) && !hasTypeParam(pt.Elem()) {
+				collectImports(pt.Elem(), fn.Pkg.Pkg, imports)
+				key, _ := val(fv.Extra[0])
+				fmt.Fprintf(body, "\tvb.NewAs(&%s, %q, %q, reflect.TypeOf((*%s)(nil)))\n", rv, rest, key, types.TypeString(pt.Elem(), qual))
+				chosen[fv.Path] = fmt.Sprint(tag.Int64())
+			} else if pt, ok := ct.Underlying().(*types.Pointer); ok && structOf(pt.Elem()) != nil && !hasTypeParam(pt.Elem()) {
+				// a concrete type the test cannot name (unexported, other package): obtain it from an exported constructor
+				if ctors := ctorCandidates(fn.Pkg.Pkg, ct, imports); len(ctors) > 0 {
+					key, _ := val(fv.Extra[0])
+					n := namedOf(pt.Elem())
+					fmt.Fprintf(body, "\tvb.NewFrom(&%s, %q, %q, %q, %s)\n", rv, rest, key, "*"+n.Obj().Pkg().Name()+"."+n.Obj().Name(), strings.Join(ctors, ", "))
+					chosen[fv.Path] = fmt.Sprint(tag.Int64())
+				}
+			} else if b, ok := ct.Underlying().(*types.Basic); ok && b.Info()&types.IsInteger != 0 && exportedOrLocal(ct, fn.Pkg.Pkg) {
+				if v, ok := val(fv.Extra[1]); ok {
+					if bn, ok := parseModelInt(v); ok {
+						collectImports(ct, fn.Pkg.Pkg, imports)
+						fmt.Fprintf(body, "\tvb.Iface(&%s, %q, %s(%s))\n", rv, rest, types.TypeString(ct, qual), goIntLit(bn, ct))
+					}
+				}
+			}
+		}
+	}
+	var roots []string
+	for _, a := range argNames {
+		roots = append(roots, "&"+a)
+	}
+	if len(roots) > 0 {
+		fmt.Fprintf(body, "\tvb.Fill(%s)\n", strings.Join(roots, ", "))
+	}
+	fmt.Fprintf(body, "\tfor _, n := range vb.notes { t.Log(\"verif builder: \" + n) }\n")
+	return body.String(), argNames, ""
+}
+
+// replayDefaults: values given to nil interface fields of these types in replayed objects.
+var replayDefaults = []struct{ pkg, pkgName, iface, value string }{
+	{"internal/utils", "utils", "Logger", "DefaultLogger"},
+}
+
+// ctorCandidates: Go closures calling exported package-level functions of ct's package (with zero arguments) whose first
+// result is ct or an interface ct implements. Only packages the function's package imports directly are used.
+func ctorCandidates(self *types.Package, ct types.Type, imports map[string]bool) []string {
+	n := namedOf(ct)
+	if pt, ok := ct.Underlying().(*types.Pointer); ok {
+		n = namedOf(pt.Elem())
+	}
+	if n == nil || n.Obj().Pkg() == nil {
+		return nil
+	}
+	tp := n.Obj().Pkg()
+	direct := false
+	for _, ip := range self.Imports() {
+		if ip == tp {
+			direct = true
+		}
+	}
+	if !direct {
+		return nil
+	}
+	qual := func(p *types.Package) string {
+		if p == self {
+			return ""
+		}
+		return p.Name()
+	}
+	zero := func(t types.Type) (string, bool) {
+		switch u := t.Underlying().(type) {
+		case *types.Basic:
+			switch {
+			case u.Info()&types.IsBoolean != 0:
+				return "false", true
+			case u.Info()&types.IsString != 0:
+				return "\"\"", true
+			case u.Info()&types.IsNumeric != 0:
+				return "0", true
+			}
+		case *types.Pointer, *types.Slice, *types.Map, *types.Chan, *types.Signature, *types.Interface:
+			return "nil", true
+		case *types.Struct:
+			if nn := namedOf(t); nn != nil && (nn.Obj().Exported() || nn.Obj().Pkg() == self) && !hasTypeParam(t) {
+				if nn.Obj().Pkg() != nil && nn.Obj().Pkg() != self {
+					ok := false
+					for _, ip := range self.Imports() {
+						if ip == nn.Obj().Pkg() {
+							ok = true
+						}
+					}
+					if !ok {
+						return "", false
+					}
+					imports[nn.Obj().Pkg().Path()] = true
+				}
+				return types.TypeString(t, qual) + "{}", true
+			}
+		}
+		return "", false
+	}
+	var out []string
+	names := tp.Scope().Names()
+	// callOf: a call of the exported function name with zero arguments; with nest, interface parameters declared in
+	// the same package are themselves obtained from a single-result constructor (constructors often type-assert them)
+	var callOf func(name string, nest bool) (string, *types.Signature, bool)
+	callOf = func(name string, nest bool) (string, *types.Signature, bool) {
+		f, ok := tp.Scope().Lookup(name).(*types.Func)
+		if !ok || !f.Exported() {
+			return "", nil, false
+		}
+		sig := f.Type().(*types.Signature)
+		if sig.Recv() != nil || sig.TypeParams() != nil || sig.Results().Len() == 0 || sig.Variadic() {
+			return "", nil, false
+		}
+		var args []string
+		for i := 0; i < sig.Params().Len(); i++ {
+			pt := sig.Params().At(i).Type()
+			if pit, isI := pt.Underlying().(*types.Interface); isI && nest {
+				if pn := namedOf(pt); pn != nil && pn.Obj().Pkg() == tp {
+					found := ""
+					for _, n2 := range names {
+						if n2 == name {
+							continue
+						}
+						if c2, s2, ok := callOf(n2, false); ok && s2.Results().Len() == 1 && (types.Identical(s2.Results().At(0).Type(), pt) || types.Implements(s2.Results().At(0).Type(), pit)) {
+							found = c2
+							break
+						}
+					}
+					if found != "" {
+						args = append(args, found)
+						continue
+					}
+				}
+			}
+			z, ok := zero(pt)
+			if !ok {
+				return "", nil, false
+			}
+			args = append(args, z)
+		}
+		return fmt.Sprintf("%s.%s(%s)", tp.Name(), name, strings.Join(args, ", ")), sig, true
+	}
+	for _, nest := range []bool{false, true} {
+		for _, name := range names {
+			call, sig, ok := callOf(name, nest)
+			if !ok {
+				continue
+			}
+			rt := sig.Results().At(0).Type()
+			okRes := types.Identical(rt, ct)
+			if it, isI := rt.Underlying().(*types.Interface); isI && !okRes {
+				okRes = types.Implements(ct, it) && it.NumMethods() > 0
+			}
+			if !okRes {
+				continue
+			}
+			lhs := "r"
+			for i := 1; i < sig.Results().Len(); i++ {
+				lhs += ", _"
+			}
+			imports[tp.Path()] = true
+			c := fmt.Sprintf("func() any { %s := %s; return r }", lhs, call)
+			dup := false
+			for _, o := range out {
+				if o == c {
+					dup = true
+				}
+			}
+			if !dup {
+				out = append(out, c)
+			}
+			if len(out) >= 6 {
+				return out
+			}
+		}
+	}
+	return out
+}
+
+func hasTypeParam(t types.Type) bool {
+	found := false
+	var walk func(t types.Type, d int)
+	walk = func(t types.Type, d int) {
+		if d > 6 || found {
+			return
+		}
+		switch x := types.Unalias(t).(type) {
+		case *types.TypeParam:
+			found = true
+		case *types.Named:
+			if ta := x.TypeArgs(); ta != nil {
+				for i := 0; i < ta.Len(); i++ {
+					walk(ta.At(i), d+1)
+				}
+			}
+		case *types.Pointer:
+			walk(x.Elem(), d+1)
+		case *types.Slice:
+			walk(x.Elem(), d+1)
+		case *types.Array:
+			walk(x.Elem(), d+1)
+		case *types.Map:
+			walk(x.Key(), d+1)
+			walk(x.Elem(), d+1)
+		case *types.Signature:
+			for i := 0; i < x.Params().Len(); i++ {
+				walk(x.Params().At(i).Type(), d+1)
+			}
+		}
+	}
+	walk(t, 0)
+	return found
+}
+
+const builderHelpers = `
+type verifBuilder struct {
+	objs     map[string]reflect.Value
+	arrays   map[string]reflect.Value
+	defaults map[reflect.Type]reflect.Value
+	notes    []string
+}
+
+func (b *verifBuilder) Default(t reflect.Type, v any) {
+	if v != nil {
+		b.defaults[t] = reflect.ValueOf(v)
+	}
+}
+
+func newVerifBuilder() *verifBuilder {
+	return &verifBuilder{objs: map[string]reflect.Value{}, arrays: map[string]reflect.Value{}, defaults: map[reflect.Type]reflect.Value{}}
+}
+
+func verifSettable(v reflect.Value) reflect.Value {
+	if v.CanAddr() && !v.CanSet() {
+		return reflect.NewAt(v.Type(), unsafe.Pointer(v.UnsafeAddr())).Elem()
+	}
+	return v
+}
+
+// at resolves a path below *root: ".name" field, "[k]" element, ".(id)" interface payload, ".*" pointee.
+func (b *verifBuilder) at(root any, path string) (cur reflect.Value, ok bool) {
+	defer func() {
+		if r := recover(); r != nil {
+			b.notes = append(b.notes, fmt.Sprintf("%s: %v", path, r))
+			ok = false
+		}
+	}()
+	cur = reflect.ValueOf(root).Elem()
+	deref := func() bool {
+		for {
+			switch cur.Kind() {
+			case reflect.Ptr, reflect.Interface:
+				if cur.IsNil() {
+					return false
+				}
+				cur = cur.Elem()
+			default:
+				return true
+			}
+		}
+	}
+	i := 0
+	for i < len(path) {
+		switch path[i] {
+		case '.':
+			j := i + 1
+			if j < len(path) && path[j] == '(' {
+				i = j + strings.IndexByte(path[j:], ')') + 1
+				continue
+			}
+			if j < len(path) && path[j] == '*' {
+				if !deref() {
+					return cur, false
+				}
+				i = j + 1
+				continue
+			}
+			k := j
+			for k < len(path) && path[k] != '.' && path[k] != '[' {
+				k++
+			}
+			if !deref() || cur.Kind() != reflect.Struct {
+				return cur, false
+			}
+			f := cur.FieldByName(path[j:k])
+			if !f.IsValid() {
+				return cur, false
+			}
+			cur = verifSettable(f)
+			i = k
+		case '[':
+			k := strings.IndexByte(path[i:], ']')
+			n, _ := strconv.Atoi(path[i+1 : i+k])
+			if !deref() || (cur.Kind() != reflect.Slice && cur.Kind() != reflect.Array) || n >= cur.Len() {
+				return cur, false
+			}
+			cur = verifSettable(cur.Index(n))
+			i += k + 1
+		default:
+			return cur, false
+		}
+	}
+	return cur, cur.CanSet()
+}
+
+func (b *verifBuilder) Int(root any, path, val string) {
+	v, ok := b.at(root, path)
+	if !ok {
+		return
+	}
+	n, _ := new(big.Int).SetString(val, 10)
+	switch v.Kind() {
+	case reflect.Int, reflect.Int8, reflect.Int16, reflect.Int32, reflect.Int64:
+		bits := uint(v.Type().Bits())
+		m := new(big.Int).Lsh(big.NewInt(1), bits)
+		r := new(big.Int).Mod(n, m)
+		if r.Cmp(new(big.Int).Rsh(m, 1)) >= 0 {
+			r.Sub(r, m)
+		}
+		v.SetInt(r.Int64())
+	case reflect.Uint, reflect.Uint8, reflect.Uint16, reflect.Uint32, reflect.Uint64, reflect.Uintptr:
+		bits := uint(v.Type().Bits())
+		m := new(big.Int).Lsh(big.NewInt(1), bits)
+		v.SetUint(new(big.Int).Mod(n, m).Uint64())
+	case reflect.Bool:
+		v.SetBool(n.Sign() != 0)
+	}
+}
+
+func (b *verifBuilder) Bool(root any, path string, val bool) {
+	if v, ok := b.at(root, path); ok && v.Kind() == reflect.Bool {
+		v.SetBool(val)
+	}
+}
+
+func (b *verifBuilder) Str(root any, path, val string) {
+	if v, ok := b.at(root, path); ok && v.Kind() == reflect.String {
+		v.SetString(val)
+	}
+}
+
+func (b *verifBuilder) New(root any, path, key string) {
+	v, ok := b.at(root, path)
+	if !ok || v.Kind() != reflect.Ptr {
+		return
+	}
+	k := key + "|" + v.Type().String()
+	if o, ok := b.objs[k]; ok {
+		v.Set(o)
+		return
+	}
+	o := reflect.New(v.Type().Elem())
+	b.objs[k] = o
+	v.Set(o)
+}
+
+func (b *verifBuilder) NewAs(root any, path, key string, typ reflect.Type) {
+	v, ok := b.at(root, path)
+	if !ok || v.Kind() != reflect.Interface || !typ.Implements(v.Type()) {
+		return
+	}
+	k := key + "|" + typ.String()
+	if o, ok := b.objs[k]; ok {
+		v.Set(o)
+		return
+	}
+	o := reflect.New(typ.Elem())
+	b.objs[k] = o
+	v.Set(o)
+}
+
+// NewFrom: the interface location gets a zeroed object of the (unnameable) concrete type want, whose reflect.Type is
+// taken from whichever constructor returns a value of that type.
+func (b *verifBuilder) NewFrom(root any, path, key, want string, ctors ...func() any) {
+	for _, c := range ctors {
+		var typ reflect.Type
+		func() {
+			defer func() { recover() }()
+			if x := c(); x != nil {
+				typ = reflect.TypeOf(x)
+			}
+		}()
+		if typ != nil && typ.String() == want && typ.Kind() == reflect.Ptr {
+			b.NewAs(root, path, key, typ)
+			return
+		}
+	}
+	b.notes = append(b.notes, path+": no constructor yields "+want)
+}
+
+func (b *verifBuilder) Iface(root any, path string, val any) {
+	v, ok := b.at(root, path)
+	if !ok || v.Kind() != reflect.Interface || !reflect.TypeOf(val).Implements(v.Type()) {
+		return
+	}
+	v.Set(reflect.ValueOf(val))
+}
+
+func (b *verifBuilder) Slice(root any, path, arr string, off, n, cp int) {
+	v, ok := b.at(root, path)
+	if !ok || v.Kind() != reflect.Slice {
+		return
+	}
+	k := arr + "|" + v.Type().String()
+	backing, have := b.arrays[k]
+	if !have || backing.Len() < off+cp {
+		nb := reflect.MakeSlice(v.Type(), off+cp, off+cp)
+		if have {
+			reflect.Copy(nb, backing)
+		}
+		backing = nb
+		if arr != "" {
+			b.arrays[k] = nb
+		}
+	}
+	v.Set(backing.Slice3(off, off+n, off+cp))
+}
+
+// Fill gives every nil map and channel in the constructed objects an empty value (the verifier's maps and channels are
+// total: reading and writing them never panics).
+func (b *verifBuilder) Fill(roots ...any) {
+	seen := map[uintptr]bool{}
+	var walk func(v reflect.Value, d int)
+	walk = func(v reflect.Value, d int) {
+		if d > 8 {
+			return
+		}
+		switch v.Kind() {
+		case reflect.Ptr:
+			if v.IsNil() || seen[v.Pointer()] {
+				return
+			}
+			seen[v.Pointer()] = true
+			walk(v.Elem(), d+1)
+		case reflect.Interface:
+			if v.IsNil() {
+				if dv, ok := b.defaults[v.Type()]; ok && v.CanSet() {
+					v.Set(dv)
+				}
+				return
+			}
+			walk(v.Elem(), d+1)
+		case reflect.Struct:
+			for i := 0; i < v.NumField(); i++ {
+				walk(verifSettable(v.Field(i)), d+1)
+			}
+		case reflect.Slice:
+			for i := 0; i < v.Len() && i < 8; i++ {
+				walk(verifSettable(v.Index(i)), d+1)
+			}
+		case reflect.Map:
+			if v.IsNil() && v.CanSet() {
+				v.Set(reflect.MakeMap(v.Type()))
+			}
+		case reflect.Chan:
+			if v.IsNil() && v.CanSet() && v.Type().ChanDir() == reflect.BothDir {
+				v.Set(reflect.MakeChan(v.Type(), 4))
+			}
+		}
+	}
+	for _, r := range roots {
+		walk(reflect.ValueOf(r), 0)
+	}
+}
+`
